@@ -65,8 +65,8 @@ CHECKS = {
    note="Process-kill model (page cache survives): no unsynced-block subsets, no reordered renames. Kill instants inside the wal dependency are represented only by the torn-tail classes. Conformance compares file rank and size (contents embed wall-clock WAL offsets).",
    ref="§3 C02"),
  "C11": dict(cat="translation_validation", tech="per-program translation validation: every enumerated SQL program planned by the real planner for a cluster and locally, both executed over mock partitions",
-   text="Every program of the bounded grammar (58 320 SQL texts; quick: every 12th) × 4 partition-key sets × N in 1..6 × 3 row sets is planned with and without QueryCluster by the real planner over mock tables; the cluster plan runs against partitions split by the same murmur3 rule, the local plan over their union; fields and rows must agree (order under ORDER BY, any n rows under a bare LIMIT) and whole-query pushdown must keep every output group on one partition.",
-   note="The mock QueryCluster mirrors DB.queryCluster (per-partition planning, first partition's fields). Known findings D8, D13, D14, D15 are matched by narrow predicates (specific clause shape plus the exact discrepancy); wrong rows outside those shapes are violations.",
+   text="Every program of the bounded grammar (67 536 SQL texts incl. FROM-subqueries that drop or alias-shadow a grouping dimension; quick: every 12th) × 4 partition-key sets × N in 1..6 × 3 row sets is planned with and without QueryCluster by the real planner over mock tables; the cluster plan runs against partitions split by the same murmur3 rule, the local plan over their union; fields and rows must agree (order under ORDER BY, any n rows under a bare LIMIT) and whole-query pushdown must keep every output group on one partition.",
+   note="The mock QueryCluster mirrors DB.queryCluster (per-partition planning, first partition's fields). Known findings D8, D13, D14, D15, D20 are matched by narrow predicates (specific clause shape plus the exact discrepancy); wrong rows outside those shapes are violations.",
    ref="§3 C11"),
  "C13": dict(cat="fault_enumeration", tech="exhaustive fault enumeration (deadline positions, partition-failure subsets and modes, size caps) on the real code with a complete run as ground truth",
    text="Deadlines made to expire after every row position (and already expired) for 30 query shapes; for P in {2,3} every non-empty subset of partitions × 5 failure modes (every k for mid-stream errors) × pushdown and non-pushdown queries with harness-registered handlers; a memory cap tripping at row 1000; and through the web API: query timeout, response-size estimate after every K <= 6, final size check, planning error on /immediate, /async, /run, then a cache hit and the permalink. Each faulted run must error, report the partition missing, answer non-200, or be complete.",
@@ -77,8 +77,8 @@ CHECKS = {
    note="The property speaks about parsing and planning: plans that panic only when executed (goexpr dimension functions fed wrong argument types) are counted, not reported. Unrecoverable crashes (D16 stack overflow, D17 out of memory) are observed in child processes and matched by their exact signature.",
    ref="§3 C16"),
  "C19": dict(cat="exploration", tech="complete enumeration of the request lattice over real gRPC and HTTP endpoints",
-   text="RPC (real gRPC on 127.0.0.1): server password {unset, set} × credential {none, wrong, right, prefix, longer} × {Query, Follow, remote-query handler registration followed by a leader query}; web (httptest with known cookie keys): OAuth {unset, set} × static password {unset, set} × 8 credentials (tokens, forged / garbage / future / just-expired / long-expired cookies) × {/immediate, /async, /cached/{permalink}}. Only valid credentials may obtain rows, WAL entries or query text; valid callers must be served.",
-   note="GitHub org verification cannot run offline: only its fail-closed direction is exercised; a well-signed unexpired session counts as verified.",
+   text="RPC (real gRPC on 127.0.0.1): server password {unset, set} × credential {none, wrong, right, prefix, longer} × {Query, Follow, remote-query handler registration followed by a leader query}; web (httptest with known cookie keys): OAuth {unset, set} × static password {unset, set} × 8 credentials (tokens, forged / garbage / future / just-expired / long-expired cookies) × {/immediate, /async, /cached/{permalink}}. The identity provider (github.com token exchange, api.github.com org check) is an environment whose answers the harness prescribes through http.DefaultTransport: expired session × 8 org answers × a second request with whatever session cookie the first response set × 3 org answers; OAuth callback with a valid state × 5 token answers × 8 org answers, then a query with the cookie the callback set. Only valid credentials / sessions the provider verified may obtain rows, WAL entries or query text; valid callers must be served.",
+   note="The provider model vouches only for the two access tokens it knows (the one it issues, the one inside the harness's cookies); XSRF state expiry (1 minute of wall clock) is not explored.",
    ref="§3 C19"),
  "C20": dict(cat="exploration", tech="exhaustive round-trip enumeration through the real codec plus end-to-end differential over real gRPC",
    text="Every valid expression tree of the generator (depth 2 quick / 3 thorough) as a field through rpc.Codec: same text, width, validity, shift and identical behaviour under every update sequence up to length 3 and under merges; every scalar type, series, rows, stats, metadata, queries, follow requests through their messages; 20 queries × 3 datasets embedded vs rpc client/server, and via a follower answering on behalf of the leader through ProcessRemoteQuery vs standalone.",
